@@ -74,7 +74,8 @@ def tasks(tier, pid):
     if pid == 'C04':
         from contracts import plate_observers as PB
         t += [('plate_observer',) + x for x in PB.tasks(tier) if x[1] in ('plate', 'rect', 'list2')]
-    if pid in ('C04', 'C07', 'C17'):
+    if pid in ('C04', 'C07', 'C17', 'C03'):
+        # C03 names recipe steps: a step refuses/accepts like the direct operation iff bake hands it the current states
         from contracts import bake as BK
         t += [('bake',) + x for x in BK.tasks(tier, pid) if x[0] == 'step']
     if pid == 'C17':
